@@ -10,17 +10,17 @@ open Gen.C01Chars
 section
 variable {e : Env} {rec : NT → M Node}
 
-theorem BPost.settype {nb nb' : NB} {s s' : St} (h : BPost e nb s nb' s') (t : Int) :
-    BPost e nb s (nb'.setType t) s' :=
+theorem BPostD.settype {d : Nat} {nb nb' : NB} {s s' : St} (h : BPostD d e nb s nb' s') (t : Int) :
+    BPostD d e nb s (nb'.setType t) s' :=
   ⟨h.1.congr rfl rfl, h.2.1, h.2.2⟩
 
 theorem BInv.settype {nb : NB} {s : St} (h : BInv e nb s) (t : Int) : BInv e (nb.setType t) s :=
   h.congr rfl rfl
 
 /-- the closing-delimiter idiom: `if !parseSep(n, ps, c) { ps.error(m) }` at the end of a body -/
-theorem close_spec {nb nb1 : NB} {s s1 : St} (sep : Int) (m : Msg) (b1 : BPost e nb s nb1 s1) :
+theorem close_spec {d : Nat} {nb nb1 : NB} {s s1 : St} (sep : Int) (m : Msg) (b1 : BPostD d e nb s nb1 s1) :
     Ok ((parseSep nb1 sep >>= fun p => if (!p.1) = true then (error m >>= fun _ => pure p.2) else pure p.2) e s1)
-      (fun nb' s' => BPost e nb s nb' s') := by
+      (fun nb' s' => BPostD d e nb s nb' s') := by
   refine Ok_bind ((parseSep_spec sep b1.1).bpost b1) ?_
   intro ⟨ok, nb2⟩ s2 b2
   simp only []
@@ -29,8 +29,9 @@ theorem close_spec {nb nb1 : NB} {s s1 : St} (sep : Int) (m : Msg) (b1 : BPost e
     exact Ok_pure (b2.err _)
   · exact Ok_pure b2
 
-theorem exitusCapture_spec (hrec : RecSpec e rec) {nb : NB} {s : St} (h : BInv e nb s) :
-    Ok (exitusCapture rec nb e s) (fun nb' s' => BPost e nb s nb' s') := by
+theorem exitusCapture_specD {d : Nat} (hrec : RecSpec e rec) {nb : NB} {s : St} (h : BInv e nb s)
+    (hd : s.pos + d ≤ (nextSt e s).pos) :
+    Ok (exitusCapture rec nb e s) (fun nb' s' => BPostD d e nb s nb' s') := by
   unfold exitusCapture
   have h1 := nextSt_inv h.inv
   have f2 := (nextSt_fwd h.inv).trans (nextSt_fwd h1)
@@ -38,22 +39,32 @@ theorem exitusCapture_spec (hrec : RecSpec e rec) {nb : NB} {s : St} (h : BInv e
   refine Ok_bind (addSep_spec (BPre.of_fwd h f2)) ?_
   intro nb1 s2 ⟨hs, hb, hf⟩
   subst hs
-  have b1 : BPost e nb s (nb1.setType ExceptionCapture) (nextSt e (nextSt e s)) :=
-    ⟨hb.settype _, hf, f2.2⟩
+  have b1 : BPostD d e nb s (nb1.setType ExceptionCapture) (nextSt e (nextSt e s)) :=
+    ⟨hb.settype _, hf, Nat.le_trans hd (nextSt_pos_le _ _)⟩
   refine Ok_bind ((child_add hrec .chunk trivial rfl b1.1).bpost b1) ?_
   intro c s3 b3
   exact close_spec _ _ b3
 
-theorem outputCapture_spec (hrec : RecSpec e rec) {nb : NB} {s : St} (h : BInv e nb s) :
-    Ok (outputCapture rec nb e s) (fun nb' s' => BPost e nb s nb' s') := by
+theorem exitusCapture_spec (hrec : RecSpec e rec) {nb : NB} {s : St} (h : BInv e nb s) :
+    Ok (exitusCapture rec nb e s) (fun nb' s' => BPost e nb s nb' s') :=
+  exitusCapture_specD hrec h (nextSt_pos_le _ _)
+
+theorem outputCapture_specD {d : Nat} (hrec : RecSpec e rec) {nb : NB} {s : St}
+    (hfirst : Ok (parseSep (nb.setType OutputCapture) 40 e s)
+      (fun p s' => BPostD d e (nb.setType OutputCapture) s p.2 s')) :
+    Ok (outputCapture rec nb e s) (fun nb' s' => BPostD d e nb s nb' s') := by
   unfold outputCapture
-  refine Ok_bind (parseSep_spec _ (h.settype OutputCapture)) ?_
+  refine Ok_bind hfirst ?_
   intro ⟨_, nb1⟩ s1 b1
   simp only []
-  have b1' : BPost e nb s nb1 s1 := ⟨b1.1, b1.2.1, b1.2.2⟩
+  have b1' : BPostD d e nb s nb1 s1 := ⟨b1.1, b1.2.1, b1.2.2⟩
   refine Ok_bind ((child_add hrec .chunk trivial rfl b1'.1).bpost b1') ?_
   intro c s3 b3
   exact close_spec _ _ b3
+
+theorem outputCapture_spec (hrec : RecSpec e rec) {nb : NB} {s : St} (h : BInv e nb s) :
+    Ok (outputCapture rec nb e s) (fun nb' s' => BPost e nb s nb' s') :=
+  outputCapture_specD hrec (parseSep_spec _ (h.settype OutputCapture))
 
 theorem lbracketLoop_spec (hrec : RecSpec e rec) : ∀ (n : Nat) (nb : NB) (s : St), BInv e nb s →
     Ok (lbracketLoop rec n nb e s) (fun nb' s' => BPost e nb s nb' s')
@@ -85,10 +96,11 @@ theorem lbracketLoop_spec (hrec : RecSpec e rec) : ∀ (n : Nat) (nb : NB) (s : 
       exact (lbracketLoop_spec hrec n nb2 s2 b2.1).bpost b2
     · exact Ok_pure (BPost.refl h)
 
-theorem lbracket_spec (hrec : RecSpec e rec) {nb : NB} {s : St} (h : BInv e nb s) :
-    Ok (lbracket rec nb e s) (fun nb' s' => BPost e nb s nb' s') := by
+theorem lbracket_specD {d : Nat} (hrec : RecSpec e rec) {nb : NB} {s : St}
+    (hfirst : Ok (parseSep nb 91 e s) (fun p s' => BPostD d e nb s p.2 s')) :
+    Ok (lbracket rec nb e s) (fun nb' s' => BPostD d e nb s nb' s') := by
   unfold lbracket
-  refine Ok_bind (parseSep_spec _ h) ?_
+  refine Ok_bind hfirst ?_
   intro ⟨_, nb1⟩ s1 b1
   simp only []
   refine Ok_bind ((parseSpacesAndNewlines_spec b1.1).bpost b1) ?_
@@ -99,19 +111,23 @@ theorem lbracket_spec (hrec : RecSpec e rec) {nb : NB} {s : St} (h : BInv e nb s
   refine Ok_bind ((parseSep_spec _ b3.1).bpost b3) ?_
   intro ⟨ok, nb4⟩ s4 b4
   simp only []
-  refine Ok_bind (P := fun _ s5 => BPost e nb s nb4 s5) ?_ ?_
+  refine Ok_bind (P := fun _ s5 => BPostD d e nb s nb4 s5) ?_ ?_
   · split
     · exact Ok_of_eq (error_eq b4.1.inv _) (b4.err _)
     · exact Ok_pure b4
   intro _ s5 b5
   split
-  · refine Ok_bind (P := fun _ s6 => BPost e nb s nb4 s6) ?_ ?_
+  · refine Ok_bind (P := fun _ s6 => BPostD d e nb s nb4 s6) ?_ ?_
     · split
       · exact Ok_of_eq (error_eq b5.1.inv _) (b5.err _)
       · exact Ok_pure b5
     intro _ s6 b6
     exact Ok_pure (b6.settype _)
   · exact Ok_pure (b5.settype _)
+
+theorem lbracket_spec (hrec : RecSpec e rec) {nb : NB} {s : St} (h : BInv e nb s) :
+    Ok (lbracket rec nb e s) (fun nb' s' => BPost e nb s nb' s') :=
+  lbracket_specD hrec (parseSep_spec _ h)
 
 theorem lambdaLoop_spec (hrec : RecSpec e rec) : ∀ (n : Nat) (nb : NB) (s : St), BInv e nb s →
     Ok (lambdaLoop rec n nb e s) (fun nb' s' => BPost e nb s nb' s')
@@ -183,16 +199,17 @@ theorem bracedLoop_spec (hrec : RecSpec e rec) : ∀ (n : Nat) (nb : NB) (s : St
       exact (bracedLoop_spec hrec n _ s4 b4.1).bpost b4
     · exact Ok_pure (BPost.refl h)
 
-theorem lbrace_spec (hrec : RecSpec e rec) {nb : NB} {s : St} (h : BInv e nb s) :
-    Ok (lbrace rec nb e s) (fun nb' s' => BPost e nb s nb' s') := by
+theorem lbrace_specD {d : Nat} (hrec : RecSpec e rec) {nb : NB} {s : St}
+    (hfirst : Ok (parseSep nb 123 e s) (fun p s' => BPostD d e nb s p.2 s')) :
+    Ok (lbrace rec nb e s) (fun nb' s' => BPostD d e nb s nb' s') := by
   unfold lbrace
-  refine Ok_bind (parseSep_spec _ h) ?_
+  refine Ok_bind hfirst ?_
   intro ⟨_, nb1⟩ s1 b1
   simp only []
   rw [bind_of_eq (peek_eq b1.1.inv)]
   split
   · exact (lambda_spec hrec b1.1).bpost b1
-  · have b1' : BPost e nb s (nb1.setType Braced) s1 := b1.settype _
+  · have b1' : BPostD d e nb s (nb1.setType Braced) s1 := b1.settype _
     refine Ok_bind ((child_add hrec (.compound BracedElemExpr) trivial rfl b1'.1).bpost b1') ?_
     intro c s2 b2
     rw [bind_of_eq (loopFuel_eq _ _)]
@@ -200,13 +217,17 @@ theorem lbrace_spec (hrec : RecSpec e rec) {nb : NB} {s : St} (h : BInv e nb s) 
     intro nb3 s3 b3
     exact close_spec _ _ b3
 
+theorem lbrace_spec (hrec : RecSpec e rec) {nb : NB} {s : St} (h : BInv e nb s) :
+    Ok (lbrace rec nb e s) (fun nb' s' => BPost e nb s nb' s') :=
+  lbrace_specD hrec (parseSep_spec _ h)
+
 /-- what a body leaves behind: the children are well-formed and, if there are
 any, tile `[From, pos)` -/
 def BodyPost (e : Env) (nb : NB) (s : St) (nb' : NB) (s' : St) : Prop :=
   Fwd e s s' ∧ nb'.frm = nb.frm ∧ WFs e.src nb'.children ∧
     (nb'.children = [] ∨ (Consec nb'.frm nb'.children ∧ endOf nb'.frm nb'.children = s'.pos))
 
-theorem BPost.body {nb nb' : NB} {s s' : St} (h : BPost e nb s nb' s') : BodyPost e nb s nb' s' :=
+theorem BPostD.body {d : Nat} {nb nb' : NB} {s s' : St} (h : BPostD d e nb s nb' s') : BodyPost e nb s nb' s' :=
   ⟨h.fwd, h.2.1, h.1.wfs, Or.inr ⟨h.1.consec, h.1.sync⟩⟩
 
 theorem LeafPost.body {nb nb' : NB} {s s' : St} (h : LeafPost e nb s nb' s') (hnil : nb.children = []) :
